@@ -55,4 +55,24 @@ PROPS = {
             "messages emitted by the real libccp are compared in the C06/C07 libccp stream when cref is built",
         ],
     },
+    "C08": {
+        "coq": "Properties/C08.v",
+        "level_text": "Theorem C08_stale_free proves that iterating Backend::next's model from a fresh cursor over a receive buffer "
+                      "of any size and any (stale) contents yields exactly a function of the scripted datagrams alone, for every "
+                      "script of datagrams, receive errors and stop requests; C08_wellformed gives exact in-order delivery with "
+                      "sender attribution for well-formed datagrams, C08_progress that every call advances. Tied to the code by "
+                      "running Backend::next over a scripted Ipc on the same scripts (truncation sweep + ~5k random scripts quick).",
+        "level_note": "Coq kernel; no axioms; model of Backend::next/get_next_read (src/ipc/mod.rs) with the buffer's stale bytes "
+                      "modelled explicitly; validated differentially over buffer sizes 64..1024.",
+        "streams": ["c08"],
+        "rule": "exhaustive truncation sweep of the middle datagram of a fixed 3-datagram family (two buffer sizes); random "
+                "scripts of 1..6 datagrams from 3 senders with 1..4 messages each, later datagrams shorter than earlier ones, "
+                "truncated tails, bit flips, junk suffixes, receive errors; non-trivial = at least two messages yielded; "
+                "distinct by script",
+        "nontrivial": lambda r: r["impl"].count(" ; ") >= 1,
+        "exhaustive": False,
+        "assumptions": [
+            "Ipc::recv returns at most the buffer length (true of the scripted transport and of the bundled ones after the chan fix)",
+        ],
+    },
 }
